@@ -108,9 +108,18 @@ func VerifC06_UpdateStrategy() {
 		w.Srv.Put(res, obs)
 		observedList = append(observedList, obs)
 	}
+	// a hook may echo the annotations of the child it was shown (incl. our
+	// last-applied record); that must not make a matching child look different
+	echo := exists && wanted && rt.Bool("hook-echoes-annotations")
 	if wanted {
 		// differences only in status or system metadata must count as equal
 		des := withSystem(verifChild(named, "ns", "a", "", desVal))
+		if echo {
+			rt.Cover("echo")
+			for k, v := range obs.GetAnnotations() {
+				env.SetAnnotation(des, k, v)
+			}
+		}
 		desiredList = append(desiredList, des)
 	}
 	observed := commonv2.MakeUniformObjectMap(parent, observedList)
